@@ -316,6 +316,9 @@ func pmSources(scale int) map[string]string {
 	out["c1"] = rename(srcs["pc"], "pc", "h", "c1")
 	out["d0"] = rename(srcs["pd"], "pd", "k", "d0")
 	out["d1"] = rename(srcs["pd"], "pd", "k", "d1")
+	for n, src := range zooPMSources() {
+		out[n] = src
+	}
 	return out
 }
 
